@@ -500,3 +500,16 @@ Proof. exact source_vcf_step. Qed.
 Theorem C20_source_vcf_loop : forall rows nc ex svlen cis,
   vcf_loop rows nc ex (map2 (fun n x => n <? x) nc ex) svlen cis = gen_vcf rows nc ex svlen cis.
 Proof. exact source_vcf_loop. Qed.
+
+(* ---- source tie of theta_read_counts, per element (Gen/FnExportTheta.v, regenerated from the Python source on every
+   run): with the source's defaults it is the model's theta_count on a finite ratio, 0 on a missing one *)
+From CNV Require Gen.FnExportTheta Proofs.FnExportTheta.
+Theorem C20_source_theta_count : forall (exp2 : Q -> Q) v nb,
+  Gen.FnExportTheta.fn_theta_count exp2 (Some v) nb Gen.ExportDefaults.theta_depth Gen.ExportDefaults.theta_bin_width
+                                   Gen.ExportDefaults.theta_read_len
+  = theta_count (exp2 v) nb.
+Proof. exact Proofs.FnExportTheta.source_theta_count. Qed.
+
+Theorem C20_source_theta_count_nan : forall (exp2 : Q -> Q) nb d w l,
+  Gen.FnExportTheta.fn_theta_count exp2 None nb d w l = Gen.ExportDefaults.theta_nan_count.
+Proof. exact Proofs.FnExportTheta.source_theta_count_nan. Qed.
